@@ -26,7 +26,7 @@ Qed.
 Lemma length_rem1 t l : count_occ Nat.eq_dec l t >= 1 -> S (List.length (rem1 t l)) = List.length l.
 Proof.
   induction l as [|a r IH]; cbn [rem1 count_occ List.length]; [lia|].
-  destruct (Nat.eqb_spec a t) as [->|Na].
+  destruct (Nat.eqb_spec a t) as [Ea|Na].
   - reflexivity.
   - destruct (Nat.eq_dec a t); [congruence|]. intros H. cbn [List.length]. rewrite IH; auto.
 Qed.
